@@ -132,10 +132,11 @@ theorem strict_valid_response_delivered (cfg : Cfg) (env : Env) (ops : List Op) 
     (hs : cfg.strict = true) (hr : env.routeFound = true) (hq : env.reqOK = true)
     (hok : env.respOK (Strict.run {} ops).status (Strict.run {} ops).client.hdr (Strict.run {} ops).buf = true) :
     (middleware cfg env ops).client.seen = ⟨(wroteStatus ops).getD 200, written ops⟩ ∧
+    (middleware cfg env ops).client.panicked = false ∧
     (middleware cfg env ops).errCalls = [] ∧ (middleware cfg env ops).logs = [] := by
   simp only [middleware, hs, hr, hq, hok]
   simp
-  exact (strict_valid_response_exact ops hv).1
+  exact strict_valid_response_exact ops hv
 
 /-- **nonstrict_passes_through.** Non-strict mode: whatever response validation says, the client's writer ends
 in exactly the state the handler would have produced on it directly, and ErrFunc is never called. -/
@@ -154,7 +155,7 @@ theorem meetsB_iff (o : Outcome) (s : SpecOut) : meetsB o s = true ↔ Meets o s
 
 /-
 Full-strength statement (does NOT hold for the code as it is — see `statusUnrecorded_witness`):
-  theorem middleware_meets_spec (hv : ValidCodes ops) : Meets (middleware cfg env ops) (spec cfg env ops)
+  middleware_meets_spec :  ∀ cfg env ops, ValidCodes ops → Meets (middleware cfg env ops) (spec cfg env ops)
 -/
 /-- **middleware_meets_spec_partial.** Outside the `StatusUnrecorded` class the model of the middleware meets
 the specification of the property for every configuration, environment and handler with acceptable codes. -/
@@ -191,11 +192,11 @@ theorem middleware_meets_spec_partial (cfg : Cfg) (env : Env) (ops : List Op) (h
         simp [hwr, hx']
     cases hval : respValid env ops with
     | true =>
-      obtain ⟨d1, d2, _⟩ := strict_valid_response_delivered cfg env ops hv hs hr hq (hverdict.trans hval)
-      simp [Meets, spec, hr, hq, hs, hval, h3, d1, d2]
+      obtain ⟨d1, d4, d2, _⟩ := strict_valid_response_delivered cfg env ops hv hs hr hq (hverdict.trans hval)
+      simp [Meets, spec, hr, hq, hs, hval, h3, d1, d2, d4]
     | false =>
-      obtain ⟨d1, _, d3, _⟩ := strict_invalid_response_replaced cfg env ops hs hr hq (hverdict.trans hval)
-      simp [Meets, spec, hr, hq, hs, hval, h3, d1, d3]
+      obtain ⟨d1, d2, d3, _⟩ := strict_invalid_response_replaced cfg env ops hs hr hq (hverdict.trans hval)
+      simp [Meets, spec, hr, hq, hs, hval, h3, d1, d2, d3]
 
 /-! ## the deviation: finding F-C14-1 -/
 
